@@ -223,7 +223,9 @@ fn emit_messages(rep: &mut Rep, seed: u64, k: usize) -> Vec<Value> {
         let limit = LIMITS[j % LIMITS.len()];
         let id = ids_for(limit)[j % ids_for(limit).len()];
         let index = [0usize, 1, (1 << 19) - 1, 1 << 19, (1 << 20) - 1, 4242][j % 6];
-        let ext = rand_fr(&mut rng);
+        // every other message uses a small external nullifier (a plain epoch counter): its aliases v + p still fit in
+        // 32 bytes, which the alias variants of the verify phase need
+        let ext = if j % 2 == 1 { Fr::from(1_700_000_000u64 + j as u64) } else { rand_fr(&mut rng) };
         let signal = rand_bytes(&mut rng, [0usize, 1, 32, 136, 137, 1000][j % 6]);
         let rc = rate_commitment_ref(&secret, &Fr::from(limit));
         m.set(index, rc);
@@ -345,6 +347,28 @@ fn verify_messages(rep: &mut Rep, dir: &str) {
                     ("declared-length+2^32", len_hi, root.clone()),
                     ("trailing-bytes", [req.clone(), det("tail", 5)].concat(), root.clone()),
                 ];
+                let mut variants = variants;
+                let zero32 = vec![0u8; 32];
+                variants.push(("valid|roots=[0]", req.clone(), zero32.clone()));
+                variants.push(("valid|roots=[0,0,0]", req.clone(), [zero32.clone(), zero32.clone(), zero32.clone()].concat()));
+                variants.push(("valid|roots=[0,other]", req.clone(), [zero32.clone(), other.clone()].concat()));
+                variants.push(("valid|roots=[0,root]", req.clone(), [zero32.clone(), root.clone()].concat()));
+                // alias encodings v + p of each public value (where they fit in 32 bytes), same proof and signal
+                {
+                    let p = num_bigint::BigUint::parse_bytes(b"21888242871839275222246405745257275088548364400416034343698204186575808495617", 10).unwrap();
+                    for (k, name) in [(0usize, "alias:root+p"), (1, "alias:external_nullifier+p"), (2, "alias:x+p"), (3, "alias:y+p"), (4, "alias:nullifier+p")] {
+                        let off = 128 + 32 * k;
+                        let v = num_bigint::BigUint::from_bytes_le(&msg[off..off + 32]) + &p;
+                        let mut b = v.to_bytes_le();
+                        if b.len() <= 32 {
+                            b.resize(32, 0);
+                            let mut m2 = msg.clone();
+                            m2[off..off + 32].copy_from_slice(&b);
+                            let roots2 = if k == 0 { b.clone() } else { root.clone() };
+                            variants.push((name, enc_verify_request(&m2, &signal), roots2));
+                        }
+                    }
+                }
                 let vs = |v: Result<Result<bool, String>, Panicked>| match v {
                     Ok(Ok(true)) => "true",
                     Ok(Ok(false)) => "false",
